@@ -89,7 +89,8 @@ def generate(seed, tier):
         knobs = {"blocklimit": wrng.choice((1, 2, 3, 8, 128)), "compound": wrng.random() < 0.6}
         layouts.append({"ops": c06.layout_ops(wrng, rounds, merges=("none", "none", "optimize", "custom")), "knobs": knobs})
     qr = random.Random("%s/queries" % seed)
-    w = mrng.choice(("bm25f", "bm25f", "bm25f_params", "bm25f_fieldb", "tfidf", "frequency", "pl2", "dfree", "multi", "reverse", "function"))
+    w = mrng.choice(("bm25f", "bm25f", "bm25f_params", "bm25f_fieldb", "tfidf", "frequency", "pl2", "dfree", "multi", "reverse", "function",
+                     "bm25f_final"))
     wspec = [w]
     if w == "bm25f_params":
         wspec = [w, mrng.choice((0.0, 0.3, 0.75, 1.0)), mrng.choice((0.5, 1.2, 2.0))]
@@ -172,6 +173,8 @@ def reference_leaf(wspec, field, text, docs, schema, field_names, avg_override=N
     """Documented formula on model statistics -> {uid: score} or None when
     the model has no documented reference formula."""
     kind = wspec[0]
+    if kind == "bm25f_final":
+        kind = "bm25f"     # (measure() has already removed the final() hook's contribution)
     if kind not in ("bm25f", "bm25f_params", "bm25f_fieldb", "tfidf", "frequency"):
         return None
     fobj = schema[field]
@@ -216,10 +219,15 @@ def measure(s, ix, record):
     tables = {"leaf": {}, "query": [], "limited": [], "limited_neutralised": [], "filtered": [], "flen": {}}
     from whoosim.props.c05 import neutralise_unscaled_boost, has_boost_above_one
     with ix.searcher(weighting=weighting) as srch:
+        # a final() hook adds FINAL_ADJ * uid to every hit (its documented effect); it is taken
+        # out again here, so that what remains must obey the rules of plain BM25F
+        from whoosim.props.c05 import FINAL_ADJ
+        adj = FINAL_ADJ if record["weighting"][0] == "bm25f_final" else 0.0
+
         def run(q, **kw):
             try:
                 r = srch.search(q, **kw)
-                return dict((h["u"], h.score) for h in r)
+                return dict((h["u"], h.score - adj * h["u"]) for h in r)
             except (SimAbort, SimKilled, HarnessError):
                 raise
             except Exception as e:  # noqa
